@@ -66,6 +66,10 @@ def _configs(tier, full, third=True):
                         for a in two:
                             yield dict(a, **b)
     if third:
+        for route in ("set_params", "attribute", "clone"):
+            for ce in (False, True):
+                for a in two + (dict(red="sum", ncomp=1, w=False),):
+                    yield dict(a, block="spacing", region="given", center=ce, drop=not ce, form="1d", route=route)
         for fm in ("mixed", "int", "int_e", "far"):
             for rg in ("given", "inferred"):
                 for ce in (False, True):
@@ -196,7 +200,22 @@ def run(case, rec):
         tv = lambda a: np.ascontiguousarray(a.reshape(shp_).T).T
         w_arg = tv(wts[0]) if ncomp == 1 else tuple(tv(w) for w in wts)
     before = [a.tobytes() for a in (e, n, extra)] + [d.tobytes() for d in data] + ([w.tobytes() for w in wts] if wts else [])
-    reducer = call(rec, vd.BlockReduce, red, **kw)
+    route = case.get("route")
+    if route in ("set_params", "attribute"):
+        other = dict(kw, center_coordinates=not kw["center_coordinates"], drop_coords=not kw["drop_coords"])
+        reducer = call(rec, vd.BlockReduce, np.max, **other)
+        if not raised(reducer):
+            full_kw = dict(kw, reduction=red)
+            if route == "set_params":
+                reducer.set_params(**full_kw)
+            else:
+                for k_, v_ in full_kw.items():
+                    setattr(reducer, k_, v_)
+    elif route == "clone":
+        from sklearn.base import clone
+        reducer = call(rec, lambda: clone(vd.BlockReduce(red, **kw)))
+    else:
+        reducer = call(rec, vd.BlockReduce, red, **kw)
     if raised(reducer):
         return rec.check(False, "BlockReduce() raised %r" % (reducer,))
     got = call(rec, reducer.filter, coords, d_arg, w_arg)
